@@ -269,6 +269,17 @@ class Model:
                 return
         if task in p:
             self.bump('readd-pending')
+        elif me in self.in_body:
+            # scheduled again by a task that runs while this one is already
+            # collected for its wake-up (AppClock takes every due task out
+            # first): as for any pending task the new scheduling replaces
+            # the old one, it is awakened once, at the new time
+            for lst in self.fifo.values():
+                for e in list(lst):
+                    if e[0] is task and e[2] == cname and e[0] in self.taskid:
+                        lst.remove(e)
+                        self.cleared.setdefault(cname, []).append(task)
+                        self.bump('resched-moves-collected-wakeup')
         p[task] = (time, self.seq, k.now)
         self.cancelled.get(cname, set()).discard(task)
         call = self.call.get(me)
@@ -448,7 +459,8 @@ class Model:
                 self.viol.add('C08-6', f'{cname[0]}-awakened-after-clear',
                               f'task {tid} was pending (taken out of the '
                               f'queue, not yet awakened) when its clock was '
-                              f'cleared, and was awakened afterwards')
+                              f'cleared or it was scheduled again, and was '
+                              f'still awakened for the old scheduling')
                 return None
             self.viol.add('C08-1', f'{cname[0]}-woken-unscheduled',
                           f'task {tid} ran without a matching pop')
@@ -863,6 +875,10 @@ def run_case(case, tape, ctx):
                     return step_body()
 
                 def __repr__(self):
+                    if tid % 2:
+                        # (an object is free to have no printable form: the
+                        # clock names the failed task some other way)
+                        raise RuntimeError('no repr')
                     return f'task{tid}'
             task = Awakable()
         elif tdef['kind'] == 'func':
